@@ -55,6 +55,7 @@ def main():
     ap.add_argument('--all-props', action='store_true')
     ap.add_argument('--tier', default='quick')
     ap.add_argument('--jobs', type=int, default=3)
+    ap.add_argument('--exclude', default='', help='skip ids containing this substring')
     ap.add_argument('--new', action='store_true', help='only (change, property) pairs without a recorded result')
     a = ap.parse_args()
     have = claimed()
@@ -63,6 +64,8 @@ def main():
     for sid in sorted(os.listdir(sdir)):
         d = os.path.join(sdir, sid)
         if not os.path.exists(os.path.join(d, 'patch.diff')) or a.only not in sid:
+            continue
+        if a.exclude and a.exclude in sid:
             continue
         meta = {}
         if os.path.exists(os.path.join(d, 'meta.json')):
